@@ -76,6 +76,7 @@ func runC13(c *core.Check) {
 	if pk == nil {
 		return
 	}
+	deadStateRule(c, pk) // no unexported field is read without a writer (a cache flag never set, a saved value never saved)
 	info := pk.TypesInfo
 	parserT := prog.NamedType("./parser", "parser")
 	bailoutT := prog.NamedType("./parser", "bailout")
